@@ -290,7 +290,7 @@ def runHandler (infoOf : AMsg → MsgInfo) (s : St) (k : Nat) : St :=
       if a.outcome == "none" then
         if Config.slotAlwaysReturned then s.modTApp ai fun a => { a with respNone := a.respNone + 1 } else s
       else
-        let rc := if a.outcome == "raise" then 5012 else 2001
+        let rc := if a.outcome == "raise" || a.outcome == "raise0" then 5012 else 2001
         s.modTApp ai fun a => { a with respQ := a.respQ ++ [generateAnswer s m info (some rc)] }
 
 def pumpAll (infoOf : AMsg → MsgInfo) (s : St) : St :=
